@@ -324,8 +324,13 @@ class ASPConverter(Converter[ASPProgram,
 
     def convert_operation(self, operation: OperationComponent) -> ASPOperation | [ASPOperation]:
         operands = []
+        negated_between = False
         if operation.negated and operation.operation < Operators.CONJUNCTION:
-            operation.operation = operators_negation[operation.operation]
+            if len(operation.operands) == 3 and not is_arithmetic_operator(operation.operation):
+                # "not (a <= x <= b)" is not the conjunction of the two negated comparisons
+                negated_between = True
+            else:
+                operation.operation = operators_negation[operation.operation]
         is_operation_on_angle = False
         for operand in operation.operands:
             if operand.is_angle():
@@ -335,12 +340,12 @@ class ASPConverter(Converter[ASPProgram,
             return ASPAngleOperation(operation.operation, *operands)
         if self._is_list_of_aggregates(operands):
             return self._convert_operation_of_list_of_aggregate(operation, operands)
-        if not is_arithmetic_operator(operation.operation) and len(operands) == 3 \
+        if not is_arithmetic_operator(operation.operation) and len(operands) == 3 and not negated_between \
                 and not isinstance(operands[1], ASPAggregate) and operation.operation < Operators.CONJUNCTION:
             return self._convert_between_operation_without_aggregate(operation, operands)
         if operation.operation >= Operators.CONJUNCTION:
             return ASPTemporalFormula([ASPTemporalOperation(operation.operation, *operands)], operation.negated)
-        operation = ASPOperation(operation.operation, *operands)
+        operation = ASPOperation(operation.operation, *operands, negated=negated_between)
         self._operations.append(operation)
         return operation
 
